@@ -100,6 +100,20 @@ fn u_space(tier: Tier) -> Vec<Universe> {
         }
         }
     }
+    // user lexicon axis: cheap user words so that they lie on best paths right after skipped runs
+    let n = out.len();
+    for i in (0..n).step_by(2) {
+        let mut u = out[i].clone();
+        let (nr, nl) = (u.dict.nr as u16, u.dict.nl as u16);
+        u.dict.user = Some(vec![
+            row("b", 2 % nl, 1 % nr, -40, "user-b"),
+            row("bc", 1 % nl, 1 % nr, -10, "user-bc"),
+            row("ca", 1 % nl, 2 % nr, -60, "user-ca"),
+            row("a", 2 % nl, 2 % nr, 25, "user-a"),
+        ]);
+        u.name.push_str("/user");
+        out.push(u);
+    }
     // char.def with DEFAULT defined after SPACE / at the end (same ids, different line order)
     let n = out.len();
     for i in (0..n).step_by(5) {
@@ -238,6 +252,9 @@ pub fn run(tier: Tier) -> i32 {
                         let end = pos + len;
                         let next_is_gap = end < chars.len() && chars[end] == ' ';
                         let prev_is_gap = pos > 0 && chars[pos - 1] == ' ';
+                        if t.6 == 1 && prev_is_gap {
+                            st.count("user_words_right_after_a_gap");
+                        }
                         if t.6 == 2 && len >= 2 && (next_is_gap || prev_is_gap) {
                             st.count("grouped_unknown_words_adjacent_to_a_gap");
                         }
@@ -278,7 +295,7 @@ pub fn run(tier: Tier) -> i32 {
             });
         }
     }
-    rep.rule = format!("state = (dictionary meeting C12's precondition, max_grouping_len, sentence over {{a,b,c,U+0020,U+3000}} of length <= {max_len}); sentences are grouped by space-normal form and every member of a class must yield the same (surface, feature, word cost, ids, total cost, lexicon type) sequence; the first member of each class is also checked against the reference minimum; distinct = distinct (dictionary, options, class token sequence)");
+    rep.rule = format!("state = (dictionary meeting C12's precondition (half of them with a user lexicon), max_grouping_len, sentence over {{a,b,c,U+0020,U+3000}} of length <= {max_len}); sentences are grouped by space-normal form and every member of a class must yield the same (surface, feature, word cost, ids, total cost, lexicon type) sequence; the first member of each class is also checked against the reference minimum; distinct = distinct (dictionary, options, class token sequence)");
     rep.bounds = json!({"max_sentence_len": max_len, "universes": us.len()});
     rep.finish(
         st,
@@ -289,6 +306,7 @@ pub fn run(tier: Tier) -> i32 {
             "sentences_of_spaces_only_or_empty",
             "ignore_space_without_SPACE_category",
             "dictionaries_with_space_runs_beyond_255",
+            "user_words_right_after_a_gap",
         ],
     )
 }
